@@ -69,6 +69,7 @@ void one_point_interpolation(      I Pp[],    const int Pp_size,
         // Set C-point as identity
         if (splitting[row] == C_NODE) {
             Pj[next] = pointInd[row];
+            Px[next] = 1.0;
             next += 1;
         }
         // For F-points, find strongest connection to C-point
